@@ -25,6 +25,9 @@
 #include <memory>
 #include <tuple>
 #include <climits>
+#if VRT_ASAN
+#include <sanitizer/lsan_interface.h>
+#endif
 
 using namespace vrt;
 using tbb::filter_mode;
@@ -442,7 +445,7 @@ int main(int argc, char** argv) {
         if (nontrivial) { R.nontrivial++; R.signature(sig); }
         if (s.fails.load()) {
             std::string key = s.fail_first.substr(0, s.fail_first.find('|')), det = s.fail_first.substr(s.fail_first.find('|') + 1);
-            R.violation(key, det + " (" + std::to_string(s.fails.load()) + " failed checks in this pipeline)\n" + rings_dump(8), s.describe());
+            R.violation(key, det + " (" + std::to_string(s.fails.load()) + " failed checks in this pipeline)\n" + (g_light ? std::string() : rings_dump(8)), s.describe());
         } else if (nontrivial && overtakes > 2 && mt >= 3 && s.nf >= 3 && s.tokens <= 64 && R.want_sample()) {
             Json j; j.obj(); j.kv("filters", s.modes()); j.kv("link_types", s.types()); j.kv("tokens", (unsigned long long)s.tokens); j.kv("items", s.N); j.kv("arena_concurrency", s.conc);
             j.kv("threads_participating", threads); j.kv("max_items_in_flight", ml); j.kv("max_bodies_running_at_once", mt); j.kv("overtakes_before_ordered_filters", overtakes); j.kv("delay_pattern", s.dpat);
@@ -510,5 +513,10 @@ int main(int argc, char** argv) {
     R.stat_max("max_bodies_running_at_once", G.max_bodies.load()); R.stat_max("max_threads_in_one_pipeline", G.max_threads.load());
     R.stat("hook_delays", (long long)perturb().delays.load());
     R.write();
+#if VRT_ASAN
+    // vrt's per-thread hook records are reachable only through a static vector that is destroyed before LeakSanitizer's
+    // end-of-process check; check now, while they are still reachable (this also disables the later check)
+    __lsan_do_leak_check();
+#endif
     return 0;
 }
